@@ -139,6 +139,11 @@ type poolItem struct {
 	// of an imported SBOM): Extractor = sbom/cdx or sbom/spdx, Metadata = its Metadata{PURL, CPEs}.
 	Meta string   `json:"sbom_metadata,omitempty"`
 	CPEs []string `json:"cpes,omitempty"`
+	// PkgFields != "": Package.Name / Package.Version differ from the PURL's although ToPURL is
+	// complete (the PURL is held in the metadata): "as-spdx-import" (Name = PURL name, Version
+	// empty: what sbom/spdx emits), "empty" (both empty), "different" (unrelated strings),
+	// "name-empty", "version-empty".
+	PkgFields string `json:"package_fields,omitempty"`
 }
 
 const cpe = "cpe:2.3:a:vendor:pkg:1.0:*:*:*:*:*:*:*"
@@ -238,6 +243,16 @@ func (p poolItem) pkg() *extractor.Package {
 		u := *p.U
 		up, name, version = &u, u.Name, u.Version
 	}
+	switch p.PkgFields {
+	case "as-spdx-import", "version-empty":
+		version = ""
+	case "empty":
+		name, version = "", ""
+	case "name-empty":
+		name = ""
+	case "different":
+		name, version = "display name <other>", "9.9-display"
+	}
 	switch p.Meta {
 	case "cdx":
 		return &extractor.Package{Name: name, Version: version, Locations: []string{"dir/in.cdx.json"}, Extractor: cdxe.New(), Metadata: &cdxe.Metadata{PURL: up, CPEs: append([]string(nil), p.CPEs...)}}
@@ -326,7 +341,10 @@ func cdxPurls(cs *[]cyclonedx.Component, out *[]string) {
 // exportDirect converts the inventory and writes it with the library's writer; it returns the
 // PURL strings present in the in-memory document.
 func exportDirect(inv []poolItem, f format, path string) (raw []string, err error) {
-	res := scanResultOf(inv)
+	return exportResult(scanResultOf(inv), f, path)
+}
+
+func exportResult(res *scalibr.ScanResult, f format, path string) (raw []string, err error) {
 	if strings.HasPrefix(f.Name, "spdx23") {
 		doc := converter.ToSPDX23(res, converter.SPDXConfig{})
 		for _, sp := range doc.Packages {
@@ -427,6 +445,91 @@ func roundTripOver(over, inv []poolItem, f format, dir string) (o outcome) {
 		o.ExpSpur = multisetDiff(o.Expected, o.Inv)
 	}
 	return o
+}
+
+// importDir scans dir with fresh SBOM extractors and returns the packages.
+func importDir(dir string) []*extractor.Package {
+	got, _, _ := filesystem.Run(context.Background(), &filesystem.Config{
+		Extractors: []filesystem.Extractor{spdxe.New(), cdxe.New()},
+		ScanRoots:  scalibrfs.RealFSScanRoots(dir), Stats: stats.NoopCollector{},
+	})
+	return got.Packages
+}
+
+// purlsBack: canonical PURLs of packages; forSPDX applies DC1 (PURL name and version needed).
+func purlsBack(pkgs []*extractor.Package, forSPDX bool) []string {
+	out := []string{}
+	for _, p := range pkgs {
+		if p == nil || p.Extractor == nil {
+			continue
+		}
+		u := p.Extractor.ToPURL(p)
+		if u == nil || (forSPDX && (u.Name == "" || u.Version == "")) {
+			continue
+		}
+		out = append(out, canonStruct(*u))
+	}
+	sort.Strings(out)
+	return out
+}
+
+type gen2Result struct {
+	Gen1OK   bool     `json:"first_generation_exact"`
+	Want     []string `json:"purls_of_first_import_expected_back"`
+	Got      []string `json:"purls_of_second_import"`
+	Err      string   `json:"error,omitempty"`
+	Panic    string   `json:"panic,omitempty"`
+	Imported []string `json:"first_import_packages"`
+}
+
+// secondGeneration: inventory -> export f1 -> import -> the IMPORTED packages (their real
+// extractor, metadata-held PURL, their own Name/Version quirks) are the new inventory -> export f2
+// -> import: the PURLs of the first import (DC1 for an SPDX f2) must come back.
+func secondGeneration(inv []poolItem, f1, f2 format, dir string) (g gen2Result) {
+	defer os.RemoveAll(dir)
+	pv, st := ev.Recover(func() {
+		d1, d2 := filepath.Join(dir, "g1"), filepath.Join(dir, "g2")
+		if err := os.MkdirAll(d1, 0o755); err != nil {
+			g.Err = "harness: " + err.Error()
+			return
+		}
+		if err := os.MkdirAll(d2, 0o755); err != nil {
+			g.Err = "harness: " + err.Error()
+			return
+		}
+		if _, err := exportDirect(inv, f1, filepath.Join(d1, f1.File)); err != nil {
+			return // first generation failing is phase 1's business
+		}
+		first := importDir(d1)
+		got1 := purlsBack(first, false)
+		want1 := expectedBack(inv, f1)
+		g.Gen1OK = len(multisetDiff(got1, want1)) == 0 && len(multisetDiff(want1, got1)) == 0
+		if !g.Gen1OK {
+			return
+		}
+		for _, p := range first {
+			g.Imported = append(g.Imported, fmt.Sprintf("%s name=%q version=%q", p.Extractor.Name(), p.Name, p.Version))
+		}
+		g.Want = purlsBack(first, strings.HasPrefix(f2.Name, "spdx23"))
+		res := scanResultOf(nil)
+		res.Inventory.Packages = first
+		if _, err := exportResult(res, f2, filepath.Join(d2, f2.File)); err != nil {
+			g.Err = "second export: " + err.Error()
+			return
+		}
+		g.Got = purlsBack(importDir(d2), false)
+	})
+	if pv != nil {
+		g.Panic = fmt.Sprint(pv) + " at " + ev.PanicSite(st)
+	}
+	return g
+}
+
+func (g *gen2Result) ok() bool {
+	if !g.Gen1OK {
+		return true
+	}
+	return g.Err == "" && g.Panic == "" && len(multisetDiff(g.Want, g.Got)) == 0 && len(multisetDiff(g.Got, g.Want)) == 0
 }
 
 // cliResult is the outcome of one cli.Flags.WriteScanResults call with several -o items.
@@ -688,12 +791,13 @@ type histReplay struct {
 }
 
 type replay struct {
-	CLI       *cliReplay  `json:"cli,omitempty"`
-	Over      []poolItem  `json:"written_first_to_the_same_path,omitempty"`
-	History   *histReplay `json:"history,omitempty"`
-	Format    string      `json:"format"`
-	Inventory []poolItem  `json:"inventory"`
-	File      string      `json:"file_name,omitempty"` // "" = the default name of the format
+	SecondFormat string      `json:"second_generation_format,omitempty"`
+	CLI          *cliReplay  `json:"cli,omitempty"`
+	Over         []poolItem  `json:"written_first_to_the_same_path,omitempty"`
+	History      *histReplay `json:"history,omitempty"`
+	Format       string      `json:"format"`
+	Inventory    []poolItem  `json:"inventory"`
+	File         string      `json:"file_name,omitempty"` // "" = the default name of the format
 }
 
 func scratchRoot() string {
@@ -763,6 +867,24 @@ func doReplay(file string) {
 	}
 	if rec.Replay.File != "" {
 		f.File = rec.Replay.File
+	}
+	if rec.Replay.SecondFormat != "" {
+		var f2 format
+		for _, x := range formats {
+			if x.Name == rec.Replay.SecondFormat {
+				f2 = x
+			}
+		}
+		g := secondGeneration(rec.Replay.Inventory, f, f2, root+"/gen2")
+		os.RemoveAll(root)
+		out, _ := json.MarshalIndent(g, "", " ")
+		fmt.Printf("replay %s: export %s -> import -> export %s -> import\n%s\n", rec.Key, f.Name, f2.Name, out)
+		if !g.ok() {
+			fmt.Println("reproduced: the second generation does not give back the PURLs of the first import")
+			os.Exit(1)
+		}
+		fmt.Println("not reproduced: second generation is exact")
+		os.Exit(0)
 	}
 	o := roundTripOver(rec.Replay.Over, rec.Replay.Inventory, f, root+"/replay")
 	os.RemoveAll(root)
@@ -886,6 +1008,27 @@ func main() {
 			typesWithShape[it.Shape]++
 			if t == purl.TypeGeneric || t == purl.TypeDebian {
 				Q = append(Q, *rp)
+			}
+		}
+	}
+	// metadata-held complete PURL, but Package.Name / Package.Version empty or different
+	for _, t := range types {
+		for _, meta := range []string{"spdx", "cdx"} {
+			for _, pf := range []string{"as-spdx-import", "empty", "different", "name-empty", "version-empty"} {
+				if t != purl.TypeGeneric && t != purl.TypeDebian && !(meta == "spdx" && pf == "as-spdx-import") {
+					continue
+				}
+				it := poolItem{Shape: "sbom-" + meta + "-pkgfields-" + pf, Type: t, U: &purl.PackageURL{Type: t, Name: "pkg", Version: "1.0"}, Meta: meta, PkgFields: pf}
+				rp := repaired(it)
+				if rp == nil {
+					excluded = append(excluded, t+":"+it.Shape)
+					continue
+				}
+				P = append(P, *rp)
+				typesWithShape[it.Shape]++
+				if t == purl.TypeGeneric {
+					Q = append(Q, *rp)
+				}
 			}
 		}
 	}
@@ -1318,6 +1461,59 @@ func main() {
 	}
 	r.Set("overwrite_phase_runs", len(jobsO))
 	if doneO < len(jobsO) {
+		finish("SBOM export -> own importer round trip preserves the PURL multiset", false)
+	}
+
+	// phase 1f: second generation (see secondGeneration): every (f1, f2) pair of formats x every
+	// single-package inventory over Q and one 3-package inventory.
+	type gjob struct {
+		inv    []int
+		f1, f2 int
+	}
+	var jobsG []gjob
+	for f1 := range formats {
+		for f2 := range formats {
+			for i := range Q {
+				jobsG = append(jobsG, gjob{[]int{i}, f1, f2})
+			}
+			jobsG = append(jobsG, gjob{triple, f1, f2})
+		}
+	}
+	resG := make([]*gen2Result, len(jobsG))
+	doneG := r.ParallelFor(len(jobsG), func(i int) {
+		j := jobsG[i]
+		g := secondGeneration(get(job{j.inv, true, 0}), formats[j.f1], formats[j.f2], nextDir())
+		r.Evals.Add(1)
+		if g.Gen1OK && len(g.Want) > 0 {
+			r.Distinct("gen2|" + formats[j.f1].Name + "|" + formats[j.f2].Name + "|" + strings.Join(g.Want, " "))
+		}
+		resG[i] = &g
+	})
+	for i, g := range resG {
+		if g == nil || g.ok() {
+			continue
+		}
+		j := jobsG[i]
+		f1, f2 := formats[j.f1], formats[j.f2]
+		inv := get(job{j.inv, true, 0})
+		kind := "lost"
+		switch lost, spur := multisetDiff(g.Want, g.Got), multisetDiff(g.Got, g.Want); {
+		case g.Panic != "":
+			kind = "panic"
+		case g.Err != "":
+			kind = "export-failed"
+		case len(lost) > 0 && len(spur) > 0:
+			kind = "altered"
+		case len(spur) > 0:
+			kind = "spurious"
+		}
+		r.Violation("second-generation:"+family(f2)+":from-"+family(f1)+":"+kind,
+			fmt.Sprintf("inventory %q exported as %s and imported gives %v; exporting THOSE packages as %s and importing again: expected back %q, got %q %s%s",
+				purlsOf(inv), f1.Name, g.Imported, f2.Name, g.Want, g.Got, g.Err, g.Panic),
+			replay{Format: f1.Name, Inventory: inv, SecondFormat: f2.Name})
+	}
+	r.Set("second_generation_runs", len(jobsG))
+	if doneG < len(jobsG) {
 		finish("SBOM export -> own importer round trip preserves the PURL multiset", false)
 	}
 
